@@ -430,7 +430,7 @@ theorem initial_windows_match_parameters (weAreClient : Bool) (peer : Params) (c
       peer.field Uquic.Gen.Flowcontrol.smapOutgoingBidiField = rfcSendLimit weAreClient peer id) ∧
     (byClient id = weAreClient → isUni id = true →
       peer.field Uquic.Gen.Flowcontrol.smapOutgoingUniField = rfcSendLimit weAreClient peer id) ∧
-    ∃ ours rw, advertised cfg = some ours ∧ newFlowControllerReceiveWindow cfg = some rw ∧
+    ∃ ours rw, advertised cfg = some ours ∧ newFlowControllerReceiveWindow cfg none weAreClient id = some rw ∧
       rw.1 = rfcReceiveLimit weAreClient ours id ∧ ours.maxData = cfg.initialConnectionReceiveWindow := by
   have h4 : id % 4 = 0 ∨ id % 4 = 1 ∨ id % 4 = 2 ∨ id % 4 = 3 := by omega
   refine ⟨?_, ?_, ?_, ?_⟩
@@ -451,7 +451,7 @@ theorem initial_windows_match_parameters (weAreClient : Bool) (peer : Params) (c
       (have h2 : id % 2 = 0 ∨ id % 2 = 1 := by omega) <;> rcases h2 with h2 | h2 <;>
       first | omega | simp [h, h2]
   · refine ⟨_, _, by simp [advertised, Uquic.Gen.Flowcontrol.advertisedWindowsFromConfig]; rfl,
-      by simp [newFlowControllerReceiveWindow, Uquic.Gen.Flowcontrol.newFCReceiveWindowFromConfig]; rfl, ?_, rfl⟩
+      by simp [newFlowControllerReceiveWindow, newFlowControllerReceiveWindowS, Uquic.Gen.Flowcontrol.newFCReceiveWindowFromConfig]; rfl, ?_, rfl⟩
     unfold rfcReceiveLimit
     simp only []
     repeat' split
@@ -459,26 +459,38 @@ theorem initial_windows_match_parameters (weAreClient : Bool) (peer : Params) (c
 
 open Uquic.Model.FlowInit in
 /-- **covering_config_is_pointwise_max.** For a spec-driven client (the QUICSpec's transport
-    parameters `adv` go on the wire, the flow controllers are built from
-    `configCoveringAdvertised(config, adv)`): the receive window every new stream starts with is at
-    least the limit advertised for *its* kind of stream (RFC 9000 §18.2), for every stream id; the
-    connection window is at least the advertised `initial_max_data`; nothing is lowered below the
-    configured values; and each maximum window size is at least its initial window. -/
+    parameters `adv` go on the wire; `newUClientConnection` runs `configCoveringAdvertised(config, adv)`
+    and remembers the advertised stream windows): for every stream id the receive window a new stream
+    starts with EQUALS the limit advertised for *its* kind of stream (RFC 9000 §18.2: bidirectional
+    opened by us = bidi_local, opened by the peer = bidi_remote, unidirectional = uni); the connection
+    window EQUALS the advertised `initial_max_data`; and only the MAXIMUM window sizes (the bound of the
+    auto-tuner) are the pointwise maximum of the configured maximum and the initial window, so they are
+    never below the window in force nor below the configured maxima.  (`Uquic.Props.C04Spec` derives
+    the per-kind FLOW_CONTROL_ERROR boundary and the absence of a stall, and keeps the witness that the
+    one-window-for-all-kinds shape of earlier revisions violates both.) -/
 theorem covering_config_is_pointwise_max (cfg : Config) (adv : Params) (id : Nat) :
-    ∃ rw, newFlowControllerReceiveWindow (enforcedConfig cfg (some adv)) = some rw ∧
-      rfcReceiveLimit true adv id ≤ rw.1 ∧ rw.1 ≤ rw.2 ∧
-      cfg.initialStreamReceiveWindow ≤ rw.1 ∧ cfg.maxStreamReceiveWindow ≤ rw.2 ∧
-      adv.maxData ≤ (enforcedConfig cfg (some adv)).initialConnectionReceiveWindow ∧
-      cfg.initialConnectionReceiveWindow ≤ (enforcedConfig cfg (some adv)).initialConnectionReceiveWindow ∧
+    ∃ rw, newFlowControllerReceiveWindow (enforcedConfig cfg (some adv)) (some adv) true id = some rw ∧
+      rw.1 = rfcReceiveLimit true adv id ∧ rw.1 ≤ rw.2 ∧
+      cfg.initialStreamReceiveWindow ≤ rw.2 ∧ cfg.maxStreamReceiveWindow ≤ rw.2 ∧
+      (enforcedConfig cfg (some adv)).initialConnectionReceiveWindow = adv.maxData ∧
+      cfg.maxConnectionReceiveWindow ≤ (enforcedConfig cfg (some adv)).maxConnectionReceiveWindow ∧
       (enforcedConfig cfg (some adv)).initialConnectionReceiveWindow ≤ (enforcedConfig cfg (some adv)).maxConnectionReceiveWindow := by
-  refine ⟨_, by simp [newFlowControllerReceiveWindow, Uquic.Gen.Flowcontrol.newFCReceiveWindowFromConfig]; rfl, ?_⟩
-  simp only [enforcedConfig, coveringConfig, pick, rfcReceiveLimit, Uquic.Gen.Flowcontrol.coverAppliedInUClient,
-    Uquic.Gen.Flowcontrol.coverConnIsMax, Uquic.Gen.Flowcontrol.coverStreamOuterIsMax,
-    Uquic.Gen.Flowcontrol.coverStreamInnerIsMax, Uquic.Gen.Flowcontrol.coverMaxWindowsFollow, if_true]
+  have h4 : id % 4 = 0 ∨ id % 4 = 1 ∨ id % 4 = 2 ∨ id % 4 = 3 := by omega
+  refine ⟨_, by simp [newFlowControllerReceiveWindow, newFlowControllerReceiveWindowS, Shape.current,
+      Uquic.Gen.Flowcontrol.newFCReceiveWindowFromConfig, Uquic.Gen.Flowcontrol.newFCSpecOverride]; rfl, ?_⟩
+  simp only [enforcedConfig, enforcedConfigS, coveringConfigS, Shape.current, pick, forStreamS, Params.field, isUni, byClient,
+    Uquic.Gen.Flowcontrol.coverAppliedInUClient,
+    Uquic.Gen.Flowcontrol.coverConnMode, Uquic.Gen.Flowcontrol.coverStreamOuterIsMax,
+    Uquic.Gen.Flowcontrol.coverStreamInnerIsMax, Uquic.Gen.Flowcontrol.coverMaxWindowsFollow,
+    Uquic.Gen.Flowcontrol.advForStreamUniField, Uquic.Gen.Flowcontrol.advForStreamOwnBidiField,
+    Uquic.Gen.Flowcontrol.advForStreamPeerBidiField, if_true]
   refine ⟨?_, ?_, ?_, ?_, ?_, ?_, ?_⟩
-  · repeat' split
-    all_goals omega
-  all_goals omega
+  · unfold rfcReceiveLimit
+    rcases h4 with h | h | h | h <;>
+      (have h2 : id % 2 = 0 ∨ id % 2 = 1 := by omega) <;> rcases h2 with h2 | h2 <;>
+      first | omega | simp [h, h2]
+  all_goals (repeat' split)
+  all_goals first | trivial | omega
 
 /-! ## 7. no panic with the callback the connection installs -/
 
